@@ -3,11 +3,13 @@
 package c12
 
 import (
+	"fmt"
 	"os"
 	"runtime"
 	"runtime/debug"
 	"runtime/pprof"
 	"strconv"
+	"time"
 
 	"verif/internal/driver"
 )
@@ -15,10 +17,44 @@ import (
 func init() {
 	driver.Register(&driver.Engine{
 		ID: "C12", Level: "exploration",
-		Rule:        "TODO",
-		Assumptions: []string{},
+		Rule: "Three arms, each judged against an ordered association list (new key appended, update keeps the position, delete removes; " +
+			"popitem/pop take the FIRST entry, derived collections ordered as doc/spec.md states) plus starlark.VerifCheckTable. " +
+			"(x) EXHAUSTIVE, Go API (SetKey/Insert, Delete, Get/Has, Len, Iterate/Keys/Items, Clear, popitem/pop through the bound method value): every sequence of " +
+			"length 0..L over the 12 operations {insert k, delete k (5 host keys, 3 with one full 32-bit hash; universe 0: +1 key equal in the low 16 bits, +1 unrelated; " +
+			"universe 1: + keys with hash 0 and hash 1), pop-first, clear}, from 22 start tables (NewDict(0), zero value, and tables pre-filled to 7,8,9,12,13,26,52,53 fillers " +
+			"either spread over the buckets or all in the universe's bucket chain with one delete+insert detour, plus, for 12,13,26,52, a mix that leaves the universe's chain exactly full after the next doubling). Bound: L=5 quick / L=7 thorough for dict over universe 0 from every start with at most 26 fillers and for set over " +
+			"universe 1 from {empty, zero value, chain:8, chain:13}; L-1 for the starts with 52 and 53 fillers, for the remaining starts of set/universe 1 and for dict/universe 1 and set/universe 0. A case is (start, first two operations) with all " +
+			"its extensions; each operation's result is compared when it is made, and len, membership+lookup of all 5 keys and of the first/last/last-removed entry, and the full Iterate order are compared at the end of EVERY " +
+			"sequence (Keys/Items and VerifCheckTable after every sequence shorter than the bound and after every 8th/4th of maximal length). The flag exhaustive refers to this arm and these bounds only. " +
+			"(s) STARLARK source: A) every sequence of length <= 4 quick / 5 thorough over the same 12 abstract operations, each rendered in a randomly chosen spelling (d[k]=v, setdefault, update, |=, pop, popitem, clear; add, update, |=, union, discard, remove, -=, difference, pop, clear) " +
+			"from empty, chain:8, chain:13, spread:12 starts, dict and set; B) every derived operation (| & - ^ and augmented forms, union/intersection/difference/symmetric_difference/issubset/issuperset with set, list, tuple and repeated-element operands, <= < >= > ==, dict |, |=, update, dict(), comprehension) " +
+			"for pairs (A,B) of ordered subsets of the 5 keys built through histories with detours (thorough: all 326x326 pairs per kind; quick: every 16th B per A); C) random mixed histories over two variables, aliasing included. Host builtins check(i, coll, result) and views(i, list(coll), coll.items()) compare with the model after every statement (length, iteration order, membership and value of every key of the id space, VerifCheckTable, then the Starlark-level iteration). " +
+			"(r) RANDOM: histories of 10^4 operations over pools of 1200-5000 keys with hashes all equal / equal in the low 16 bits / sequential / random / 16 distinct / {0,1}, alternating fill and drain phases, through the Go API or through method calls; result of every operation and Len compared at once, " +
+			"full order every 500 operations, VerifCheckTable every 1000 (2500 for single-chain distributions), derived Go-API operations (Union, Intersection, Difference, SymmetricDifference, IsSubset, IsSuperset, Dict.Union) at 3 random points. " +
+			"distinct_nontrivial counts distinct (start, live universe keys in order, surviving fillers, bucket count, overflow-bucket count) states reached in arm x plus one per case of the other arms.",
+		Assumptions: []string{
+			"the oracle is a plain ordered association list; derived-collection orders are those of doc/spec.md (`&` keeps the left operand's order; symmetric_difference lists S-minus-y then y-minus-S; dict | and |= keep left keys in place; popitem/pop remove the first entry)",
+			"host keys are compared by id and report a scripted Hash(); equal keys always report equal hashes",
+			"starlark.VerifCheckTable (build tag verif) correctly states the structural invariants of the hash table",
+			"in arm x a table is restored after an operation either by the exact inverse (delete of a just-inserted key that took an existing vacant slot; re-storing the old value) or by rebuilding it from scratch; one case in 61 is re-run with rebuilds only and must observe identical orders and table shapes",
+		},
 		Run:         run,
+		MinDistinct: 100,
+		Finish:      finish,
 	})
+}
+
+func finish(ev map[string]any) (string, bool) {
+	if os.Getenv("VERIF_C12_ARMS") != "" {
+		return "", false
+	}
+	cnt, _ := ev["counters"].(map[string]int64)
+	for _, k := range []string{"x_sequences_judged", "x_table_invariant_checks", "x_undo_crosschecked_cases", "x_grow_events_in_enumerated_ops", "s_checks_executed", "s_operand_pairs", "r_operations", "r_table_invariant_checks", "r_derived_operations"} {
+		if cnt[k] <= 0 {
+			return "monitor observed nothing for " + k, true
+		}
+	}
+	return "", false
 }
 
 func envInt(name string) int {
@@ -33,7 +69,7 @@ func run(c *driver.Ctx) {
 	if g := envInt("VERIF_C12_GOGC"); g > 0 { // dev only
 		debug.SetGCPercent(g)
 	} else {
-		debug.SetGCPercent(1600)
+		debug.SetGCPercent(400)
 	}
 	if p := os.Getenv("VERIF_C12_PROF"); p != "" { // dev only
 		if f, err := os.Create(p); err == nil {
@@ -41,10 +77,40 @@ func run(c *driver.Ctx) {
 			defer pprof.StopCPUProfile()
 		}
 	}
+	go memoryGuard(c)
 	arms := os.Getenv("VERIF_C12_ARMS") // dev only: subset of "xsr"
 	on := func(a string) bool { return arms == "" || containsByte(arms, a[0]) }
 	if on("x") {
 		runExhaustive(c)
+	}
+	if on("s") || on("A") {
+		runStarlarkA(c)
+	}
+	if on("s") || on("B") {
+		runStarlarkB(c)
+	}
+	if on("s") || on("C") {
+		runStarlarkC(c)
+	}
+	if on("r") {
+		runRandom(c)
+	}
+}
+
+// memoryGuard ends the process when the heap explodes. On a correct tree the live heap of this
+// engine stays far below 100 MB; a corrupted order list (a cycle) makes grow/keys/items allocate
+// without end, which must become a verdict rather than an exhausted machine. The parent attributes
+// the death to the case in flight (its Note names the arm) and restarts the shard after it.
+func memoryGuard(c *driver.Ctx) {
+	var ms runtime.MemStats
+	for {
+		time.Sleep(100 * time.Millisecond)
+		runtime.ReadMemStats(&ms)
+		if ms.HeapAlloc > 900<<20 {
+			c.Violation("C12 runaway allocation", fmt.Sprintf("heap grew to %d MB inside a dict/set operation (case %d): a corrupted table is being walked or rehashed without end", ms.HeapAlloc>>20, c.Case()), nil)
+			fmt.Fprintln(os.Stderr, "panic: C12 runaway allocation (heap limit of the monitor exceeded)")
+			os.Exit(2)
+		}
 	}
 }
 
